@@ -4,6 +4,7 @@ import (
 	"bufio"
 	"encoding/json"
 	"fmt"
+	"math"
 	"os"
 	"strings"
 
@@ -190,6 +191,8 @@ func ExtractQueryFromFile(file string) (string, error) {
 	}(queryFileContent)
 	query := ""
 	scanner := bufio.NewScanner(queryFileContent)
+	// a query may be written on one physical line: do not stop at bufio's 64 KiB default token size
+	scanner.Buffer(make([]byte, 0, bufio.MaxScanTokenSize), math.MaxInt)
 	findLineFound := false
 	for scanner.Scan() {
 		line := scanner.Text()
